@@ -70,7 +70,15 @@ def decodeLeaf (fields : List (Bytes × Bytes)) (content : Bytes) : Option Bytes
 
 def kindName (k : String) : String :=
   if k == "m" then "mixed" else if k == "a" then "alternative" else if k == "r" then "related"
-  else if k == "e" then "encrypted" else "signed"
+  else if k == "e" || k == "y" then "encrypted" else "signed"
+
+/-- the `protocol` / `micalg` parameters a signed or encrypted multipart was built with -/
+def kindParams (k : String) : List (String × String) :=
+  if k == "s" then [("protocol", "application/pgp-signature"), ("micalg", "pgp-sha256")]
+  else if k == "x" then [("protocol", "application/PKCS7-Signature"), ("micalg", "SHA-256")]
+  else if k == "e" then [("protocol", "application/pgp-encrypted")]
+  else if k == "y" then [("protocol", "application/PGP-Encrypted")]
+  else []
 
 /-- compare what the reader recovered with what was asked for; `root` = the entity is the
     whole message -/
@@ -118,6 +126,8 @@ partial def agrees (root : Bool) : Want → Skel → Option String
     | some v =>
       if !(str s!"multipart/{kindName kind.toLower}").isPrefixOf (v.map lowerB) then some "multipart-kind-differs"
       else if kind.all Char.isUpper && (field fields "content-id").isNone then some "header-set-before-the-boundary-is-missing"
+      else if (kindParams kind.toLower).any (fun (n, x) => StructuredDec.paramDecode (str n) v != some (str x)) then
+        some "multipart-protocol-or-micalg-parameter-differs"
       else if wants.length != parts.length then some s!"number-of-parts-differs:{parts.length}"
       else (wants.zip parts).findSome? fun (w, p) => agrees false w p
   | .leaf _ _ _ _, .multi .. => some "leaf-read-as-multipart"
